@@ -32,6 +32,24 @@ type c09Lang struct {
 	valid   func(b []byte) (ok bool, why string, inconclusive bool)
 }
 
+const c09ModuleMark = "\x00module\x00"
+
+// validJSKind: text of an inline script element; module scripts are parsed as modules, classic ones as scripts only.
+func validJSKind(text string) (bool, string, bool) {
+	kind := "script"
+	if strings.HasPrefix(text, c09ModuleMark) {
+		kind, text = "module", strings.TrimPrefix(text, c09ModuleMark)
+	}
+	v, err := jsSyntax(text, kind, 0, false)
+	if err != nil {
+		return false, "", true
+	}
+	if v.Acorn && v.V8 {
+		return true, "", false
+	}
+	return false, kind + ": " + v.Msg, v.Acorn != v.V8
+}
+
 func validJS(b []byte) (bool, string, bool) {
 	disagree := false
 	msg := ""
@@ -148,15 +166,21 @@ func htmlScripts(sc *htmlScan) []string {
 			continue
 		}
 		isJS := true
+		module := false
 		for _, a := range t.Attrs {
 			if a.Name == "type" && !jsTypeRe.MatchString(a.Value) && a.Value != "" {
 				isJS = false
+			}
+			if a.Name == "type" && strings.EqualFold(strings.TrimSpace(a.Value), "module") {
+				module = true
 			}
 			if a.Name == "src" {
 				isJS = false
 			}
 		}
-		if isJS {
+		if isJS && module {
+			out = append(out, c09ModuleMark+text) // a module script: parsed with the module goal
+		} else if isJS {
 			out = append(out, text)
 		}
 	}
@@ -343,11 +367,11 @@ func C09(run *core.Run) {
 			si, so := htmlScripts(scanHTML(string(in))), htmlScripts(scanHTML(string(out)))
 			if len(si) == len(so) {
 				for k := range si {
-					if strings.TrimSpace(si[k]) == "" {
+					if strings.TrimSpace(strings.TrimPrefix(si[k], c09ModuleMark)) == "" {
 						continue
 					}
-					if ok, _, inc := validJS([]byte(si[k])); ok && !inc {
-						if ok2, why2, inc2 := validJS([]byte(so[k])); !ok2 && !inc2 {
+					if ok, _, inc := validJSKind(si[k]); ok && !inc {
+						if ok2, why2, inc2 := validJSKind(so[k]); !ok2 && !inc2 {
 							return fmt.Sprintf("inline script %d is valid JS in the input but not in the output: %s", k, why2), out
 						}
 					}
